@@ -651,6 +651,11 @@ def _generate_cyclic(rng, index, tier):
             args = _place(rng, [names[j] for j in refs[i]], fam)
             nd = {"name": names[i], "cls": _op_cls(rng),
                   "args": args, "plan": _plan(rng, sum(1 for _ in iter_refs(args)))}
+            if rng.random() < 0.12:
+                # a command that does not read some (or any) of the results it references: the references are there all
+                # the same, and so is the cycle
+                nd["exact"] = True
+                nd["plan"] = [o for o in nd["plan"] if rng.random() < 0.5]
         else:
             nd = {"name": names[i], "cls": "ProbeSrc", "args": {}, "plan": []}
         nodes.append(nd)
@@ -689,6 +694,21 @@ def _generate_cyclic(rng, index, tier):
         if early and late:
             sc["late"] = [nd["name"] for nd in sc["nodes"] if nd["name"] in late]
             sc["ops"] = [["RUN"]]
+    elif rng.random() < 0.15:
+        # history: the program first holds a plain source in the place of one command and runs; that command is then
+        # replaced (deleted and added again, the documented way to change a model) by the one that closes the cycle
+        deps = deps_of(sc)
+        cands = []
+        for nd in sc["nodes"]:
+            if not deps[nd["name"]]:
+                continue
+            cut = dict(deps, **{nd["name"]: []})
+            if not any(x in closure(cut, d) for x in cut for d in cut[x]):
+                cands.append(nd["name"])
+        if cands:
+            sc["replace"] = rng.choice(sorted(cands))
+            sc["ops"] = [["RUN"]]
+            sc["src_count"] = 0
     elif CONCURRENT_CLIENTS and rng.random() < 0.2:
         # two clients on the same program at once (a second thread reads a result of the cycle, or runs the program too);
         # the scenario says after how many lines of the code under test the other client continues
@@ -996,6 +1016,9 @@ def _build(sc, Program, probe):
     for n in nodes[k:]:
         if n.get("ext"):
             continue
+        if sc.get("replace") == n["name"]:
+            program.add_command(probe.ProbeSrc, n["name"], {})     # (stands in until the first run is over)
+            continue
         args = {}
         for s in SLOTS:
             if s in n["args"]:
@@ -1159,6 +1182,27 @@ def execute(sc):
                     if nd["name"] in sc["late"]:
                         args = {s_: _api_value(nd["args"][s_], program, False) for s_ in SLOTS if s_ in nd["args"]}
                         program.add_command(getattr(probe, nd["cls"]), nd["name"], args)
+                mon.counts.clear()
+                mon.returned.clear()
+                total_enters[0] = 0
+            if cyclic and sc.get("replace") in pos and sc.get("src_count", 0) == 0:
+                saved_plans = ctx.plans.get(sc["replace"])
+                ctx.plans[sc["replace"]] = []
+                try:
+                    log.emit("op-begin", op="RUN-BEFORE-REPLACEMENT")
+                    program.run()
+                    log.emit("op-end", op="RUN-BEFORE-REPLACEMENT", ok=True)
+                    res.probe("a command of a program that had run was replaced by one that closes a cycle")
+                except SimAbort:
+                    raise
+                except Exception as exc:  # noqa
+                    log.emit("op-end", op="RUN-BEFORE-REPLACEMENT", ok=False)
+                    res.observe("acyclic stand-in program failed to run: %s" % type(exc).__name__)
+                ctx.plans[sc["replace"]] = saved_plans
+                nd = sc["nodes"][pos[sc["replace"]]]
+                del program.commands[nd["name"]]
+                args = {s_: _api_value(nd["args"][s_], program, False) for s_ in SLOTS if s_ in nd["args"]}
+                program.add_command(getattr(probe, nd["cls"]), nd["name"], args)
                 mon.counts.clear()
                 mon.returned.clear()
                 total_enters[0] = 0
